@@ -113,7 +113,7 @@ func Main(m *testing.M, property string) {
 }
 
 func (r *Recorder) loadFindings() {
-	b, err := os.ReadFile(filepath.Join(Root(), "known_findings.json"))
+	b, err := os.ReadFile(filepath.Join(Root(), "known_findings", r.prop+".json"))
 	if err != nil {
 		return
 	}
